@@ -256,11 +256,13 @@ def caseTyped (fn : String) (c : String × String × String × String) : Bool :=
       && (rank1Fns.contains callee || rank2Specials.contains callee || okRegular callee) && (domOf callee).kinds.contains k)
    || ((placeholdersFor false k).isEmpty &&
         (fieldNames k).any fun f => parseOpnd qa == qField f && parseOpnd pa == pField f && f != "CompliantName()" && f != ""
-          && ((Tree.fieldIndex k f).all fun j => !whereSlot true k j) && partOk callee (declTy k f)))
+          && callee != "!=" && ((Tree.fieldIndex k f).all fun j => !whereSlot true k j) && partOk callee (declTy k f)))
 
 def switchTyped (fn : String) : Bool :=
   match typeSwitches.lookup fn with
-  | some cases => cases.all (caseTyped fn) && ((domOf fn).kinds.all fun k => !kindChanging k) || fn == "areEqualExpr" && cases.all (caseTyped fn)
+  | some cases =>
+    cases.all (caseTyped fn) && (fn == "areEqualExpr" || (domOf fn).kinds.all fun k => !kindChanging k)
+      && (specialFns.contains fn || cases.all fun c => c.2.1 != "special")
   | none => false
 
 /-- the functions `P` is proved for -/
